@@ -183,7 +183,7 @@ theorem too_large_refused (s : Scheme) (e b p tl aLarge : Nat) (he : 0 < e) (hb 
   · intro h; simp [refused, h]
   · intro h
     simp only [refused, Bool.or_eq_false_iff, decide_eq_false_iff_not, Nat.not_lt] at h
-    have hle := h.1.1.1
+    have hle := h.1.1.1.1
     unfold maxTransferLength at hle
     dsimp only at hle
     constructor
@@ -226,28 +226,49 @@ theorem accepted_blocks_encodable (s : Scheme) (e b p tl aLarge k : Nat)
   cases s with
   | nocode => rfl
   | raptorq =>
-    have h3 := hacc.1.2
+    have h3 := hacc.1.1.2
     simp only [beq_self_eq_true, Bool.or_true, Bool.true_and, decide_eq_false_iff_not] at h3
     simp only [blockFails, decide_eq_false_iff_not]
     omega
   | raptor =>
     have := hrap rfl
-    have h3 := hacc.1.2
+    have h3 := hacc.1.1.2
     simp only [beq_self_eq_true, Bool.true_or, Bool.true_and, decide_eq_false_iff_not] at h3
     simp only [blockFails, Bool.or_eq_false_iff, beq_eq_false_iff_ne, decide_eq_false_iff_not]
     exact ⟨this, by omega⟩
   | rs =>
-    have h2 := hacc.1.1.2
+    have h2 := hacc.1.1.1.2
     simp only [beq_self_eq_true, Bool.true_or, Bool.true_and, Bool.or_eq_false_iff, beq_eq_false_iff_ne,
       decide_eq_false_iff_not] at h2
     simp only [blockFails, Bool.or_eq_false_iff, beq_eq_false_iff_ne, decide_eq_false_iff_not]
     omega
   | rsus =>
-    have h2 := hacc.1.1.2
+    have h2 := hacc.1.1.1.2
     simp only [beq_self_eq_true, Bool.or_true, Bool.true_and, Bool.or_eq_false_iff, beq_eq_false_iff_ne,
       decide_eq_false_iff_not] at h2
     simp only [blockFails, Bool.or_eq_false_iff, beq_eq_false_iff_ne, decide_eq_false_iff_not]
     omega
+
+/-- **accepted ⇒ encodable, without exception** (since /repo 42b2a1c `add_object` also refuses a Raptor partition
+    using a block of 2 or 3 symbols): every block of the RFC 5052 partition `(aLarge, aSmall, nL, n)` of an accepted
+    object - `aLarge` symbols for the first `nL` blocks, `aSmall` for the others - can be encoded.  (Finding D23 / D26
+    is repaired for objects; an FDT instance coded with a Raptor default OTI is refused at `publish`.) -/
+theorem accepted_blocks_encodable_full (s : Scheme) (e b p tl aLarge aSmall nL n i : Nat)
+    (hacc : refusedFull s e b p tl aLarge aSmall nL n = false) (hi : i < n)
+    (hk1 : 1 ≤ (if i < nL then aLarge else aSmall)) (hle : aSmall ≤ aLarge) :
+    blockFails s (if i < nL then aLarge else aSmall) p = false := by
+  simp only [refusedFull, Bool.or_eq_false_iff] at hacc
+  obtain ⟨h1, h2⟩ := hacc
+  apply accepted_blocks_encodable s e b p tl aLarge _ h1 hk1 (by split <;> omega)
+  intro hs
+  subst hs
+  simp only [beq_self_eq_true, Bool.true_and, Bool.or_eq_false_iff, Bool.and_eq_false_imp, decide_eq_true_eq,
+    beq_eq_false_iff_ne] at h2
+  by_cases hl : i < nL
+  · simp only [hl, ↓reduceIte]
+    exact h2.1 (by omega)
+  · simp only [hl, ↓reduceIte]
+    exact h2.2 (by omega)
 
 /-- the K maximum is sharp in the model as in the libraries: a RaptorQ block of 56403 source symbols is
     encodable, one of 56404 is not (and `add_object` refuses the object); likewise 8192 / 8193 for Raptor -/
@@ -262,7 +283,8 @@ theorem kmax_boundary :
     (both FEC IDs); FEC Encoding ID 5 also refuses `B + parity > 255` whatever the object (8-bit OTI fields) -/
 theorem rs_boundary :
     refused .rsus 1 255 1 254 254 = false ∧ refused .rsus 1 255 1 255 255 = true ∧
-    refused .rs 1 250 5 100 100 = false ∧ refused .rs 1 251 5 100 100 = true ∧ refused .rsus 1 251 5 100 100 = false := by
+    refused .rs 1 250 5 100 100 = false ∧ refused .rs 1 251 5 100 100 = true ∧ refused .rsus 1 251 5 100 100 = false ∧
+    refused .rsus 1 65534 1 100 100 = false ∧ refused .rsus 1 65535 1 100 100 = true := by
   decide
 
 /-- the hypotheses `emitTransfer … = some …` of the session-level theorems are always satisfiable: the
